@@ -3,6 +3,7 @@
 package tubes
 
 import (
+	"fmt"
 	"io"
 
 	"github.com/sirupsen/logrus"
@@ -279,4 +280,31 @@ func (r *Reliable) VerifUnackedFrames() int {
 	r.l.Lock()
 	defer r.l.Unlock()
 	return r.sender.unAckedFramesRemaining()
+}
+
+// VerifDebug summarises the tube's sender and receiver state (diagnostics for stalled runs).
+func (r *Reliable) VerifDebug() string {
+	r.l.Lock()
+	defer r.l.Unlock()
+	s := r.sender
+	s.m.Lock()
+	queued := 0
+	first := uint32(0)
+	for i, f := range s.frames {
+		if f.queued {
+			queued++
+		}
+		if i == 0 {
+			first = f.frameNo
+		}
+	}
+	out := fmt.Sprintf("state=%d sender{ackNo=%d frameNo=%d frames=%d first=%d queued=%d unacked=%d window=%d cwnd=%.1f ctl=%d rtoCounter=%d RTO=%v RTT=%v dupAck=%d finSent=%v closed=%v sendQ=%d prioQ=%d}",
+		r.tubeState, s.ackNo, s.frameNo, len(s.frames), first, queued, s.unacked, s.senderWindow.windowSize, s.senderWindow.cwndSize,
+		s.senderWindow.state, s.rtoCounter, s.RTO, s.RTT, s.senderWindow.duplicatedAckCounter, s.finSent, s.closed.Load(), len(s.sendQueue), len(s.prioritySendQueue))
+	s.m.Unlock()
+	r.recvWindow.m.Lock()
+	out += fmt.Sprintf(" receiver{ackNo=%d windowStart=%d frags=%d buffered=%d closed=%v}", r.recvWindow.ackNo, r.recvWindow.windowStart,
+		r.recvWindow.fragments.Len(), r.recvWindow.buffer.Len(), r.recvWindow.closed.Load())
+	r.recvWindow.m.Unlock()
+	return out
 }
